@@ -63,6 +63,12 @@ func checkAll(e *vkit.Env, t *tree, when string) {
 		if err != nil {
 			continue
 		}
+		// the full block (served through the block cache) agrees with the header
+		if fb, ferr := l.QueryBlock([]byte(n.id)); ferr == nil {
+			vrt.Assert(fb.InTrunk == b.InTrunk && fb.Height == b.Height && string(fb.NextHash) == string(b.NextHash) && string(fb.PreHash) == string(b.PreHash), "full-block-agrees-with-header")
+		} else {
+			vrt.Assert(false, "stored-block-is-found")
+		}
 		in := t.inTrunk(i)
 		vrt.Assert(b.InTrunk == in, "in-trunk-flag-matches-main-chain")
 		vrt.Assert(b.Height == n.height, "height-is-parent-height-plus-one")
